@@ -174,6 +174,7 @@ impl Config {
             State::Grep(GrepType::Ripgrep, _, _, _) => &self.classic_grep_header_style,
             State::HunkHeader(_, _, _, _) => &self.hunk_header_style,
             State::SubmoduleLog => &self.file_style,
+            State::SubmoduleShort(_) => &self.file_style,
             _ => delta_unreachable("Unreachable code reached in get_style."),
         }
     }
